@@ -78,7 +78,7 @@ def two_group_cases(rng, quick):
     for w in W:
         ops += ["st" + w, "sd" + w, "dl%s:0" % w, "d1%s:0" % w, "d2%s:0" % w, "d1%s:1" % w, "d2%s:1" % w, "dr%s:0" % w,
                 "pl" + w, "pt" + w, "sw%s:0" % w, "sw%s:1" % w, "SW%s:0" % w, "SW%s:1" % w, "S1%s:0" % w, "S2%s:1" % w,
-                "S2%s:0" % w, "rs" + w, "tk%s:2" % w, "tk%s:13" % w, "tk%s:5" % w, "dn%s:0" % w, "up%s:0" % w, "dn%s:100" % w, "up%s:100" % w, "de%s:100" % w,
+                "S2%s:0" % w, "rs" + w, "SU%s:0" % w, "SU%s:2" % w, "SU%s:3" % w, "SU%s:4" % w, "tk%s:2" % w, "tk%s:13" % w, "tk%s:5" % w, "dn%s:0" % w, "up%s:0" % w, "dn%s:100" % w, "up%s:100" % w, "de%s:100" % w,
                 "dn%s:1" % w, "dn%s:101" % w]
     settle = ["sd0", "dl1:9", "dl0:9", "sd1", "dl0:9", "dl1:9"]
     # every single op and (thorough: every pair) after the warm states, then settle
@@ -157,6 +157,7 @@ def all_ops(nifs):
         for k in range(nifs + 1):
             ops += ["dn%s:%d" % (w, k), "up%s:%d" % (w, k)]
         ops += ["de%s:0" % w, "xa%s:0" % w, "xu%s:0" % w]   # xa/xu: down/up with the m.mu lock probe
+        ops += ["SU%s:0" % w, "SU%s:3" % w]                      # switchover naming an unknown group first / last
         ops += ["tk%s:%d" % (w, b) for b in (0, 2, 5, 9, 13)]   # checkPeerTimeout: not connected (+ timeout), old hb, skew, both
     return ops
 
@@ -209,7 +210,7 @@ def gen_cases(rng, tier, budget):
     else:
         for c in confs:
             for k in range(4):
-                sl = [s for j, s in enumerate(seqs) if len(s) < 3 or (j + k) % 12 == 0]
+                sl = [s for j, s in enumerate(seqs) if len(s) < 3 or (j + k) % 30 == 0]
                 for s in sl:
                     cases.append(c + " " + " ".join(warm(k) + s + ["sd0", "dl1:9", "dl0:9", "sd1", "dl0:9", "dl1:9"]))
     # (2) random walks
